@@ -18,7 +18,7 @@ BUDGET = {"quick": 70, "thorough": 560}
 
 FAMILY = ["{u}/(exp({u}) - 1)", "sin({u})/({u})", "(exp({u}) - 1)/({u})", "(1 - cos({u}))/(({u})**2)", "log(1 + {u})/({u})", "({u})/({u})"]
 SMOOTH = ["0.5 * {x}", "exp(-{x} * {x})", "1.5", "cos({x})"]
-NONREMOVABLE = ["1/({x} - {b})", "2.5/(({x} - {b})**2)"]
+NONREMOVABLE = ["1/({x} - {b})", "2.5/(({x} - {b})**2)", "abs({x} - {b})/({x} - {b})"]  # poles and a jump
 
 
 def plan(tier, seed):
@@ -33,7 +33,8 @@ def plan(tier, seed):
 
 
 def mp_eval(src, env):
-    ns = {"exp": mpmath.exp, "sin": mpmath.sin, "cos": mpmath.cos, "log": mpmath.log, "sqrt": mpmath.sqrt, "abs": abs, "pi": mpmath.pi}
+    ns = {"exp": mpmath.exp, "sin": mpmath.sin, "cos": mpmath.cos, "log": mpmath.log, "sqrt": mpmath.sqrt, "abs": abs, "pi": mpmath.pi,
+          "Conditional": lambda c, a, b: a if c else b, "Gt": lambda a, b: a > b, "Lt": lambda a, b: a < b, "pg": mpmath.mpf(2)}
     ns.update(env)
     return eval(compile(src, "<c16>", "eval"), {"__builtins__": {}}, ns)
 
@@ -90,7 +91,11 @@ def build(rng, n_sing):
             # keep the logarithm's argument positive near the singular value only: use a family member without log
             # when the sample points could make 1 + u <= 0
             fam = rng.choice(FAMILY[:4])
-        terms.append(fam.format(u=f"({u})"))
+        term = fam.format(u=f"({u})")
+        if rng.random() < 0.2:
+            # the singular expression is one branch of a conditional on something else (a parameter)
+            term = rng.choice([f"Conditional(Gt(pg, 1), {term}, 7)", f"Conditional(Lt(pg, 1), 7, {term})"])
+        terms.append(term)
         sing.append((st, a))
     for _ in range(rng.randint(0, 2)):
         terms.append(rng.choice(SMOOTH).format(x=rng.choice(states)))
@@ -109,7 +114,7 @@ def build(rng, n_sing):
     as_inter = rng.random() < 0.5
     layout = rng.choice(["flat", "flat", "components", "stateless_component"])
     if layout == "flat":
-        lines = ["states(" + ", ".join(f"{s}={vals[s]}" for s in states) + ")", ""]
+        lines = ["parameters(pg=2.0)", "states(" + ", ".join(f"{s}={vals[s]}" for s in states) + ")", ""]
         if as_inter:
             lines += [f"w = {expr}", "dx_dt = w - x"]
         else:
@@ -118,7 +123,7 @@ def build(rng, n_sing):
             lines.append("dy_dt = -y")
     else:
         # the singular expression may live in a component that owns other states, or no state at all
-        lines = ['states("Membrane", x=' + str(vals["x"]) + ")"]
+        lines = ['parameters("Membrane", pg=2.0)', 'states("Membrane", x=' + str(vals["x"]) + ")"]
         if two:
             lines.append('states("Gate", y=' + str(vals["y"]) + ")")
         lines.append("")
@@ -170,7 +175,7 @@ def run_case(spec, ctx):
     for item in pts:
         kind, p = item[0], item[1]
         env_ = dict(p)
-        pt = dict(p, t=0.0)
+        pt = dict(p, t=0.0, pg=2.0)
         rec = m2.call("monitor_values", pt)
         out["evaluations"] += 1
         if rec.exc is not None:
@@ -209,6 +214,9 @@ def run_case(spec, ctx):
                     out["violations"].append({"kind": "not_the_limit_at_removable_point", "detail": {"state": st, "value": a, "point": p, "got": got, "limit": float(lim), "ratio": (got / float(lim)) if lim else None, "n_removable": len(sing), "expr": expr}})
             elif cls == "nonremovable":
                 cn["nonremovable_points_seen"] = cn.get("nonremovable_points_seen", 0) + 1
+                # a pole or a jump is left untouched: the value there stays what the original gives (not finite)
+                if math.isfinite(got) and (st, a) == nonrem:
+                    out["violations"].append({"kind": "nonremovable_singularity_replaced", "detail": {"state": st, "value": a, "point": p, "got": got, "n_removable": len(sing), "expr": expr}})
     cn["regular_points_compared"] = n_reg
     cn["removable_points_compared"] = n_sing_ok
     cn.setdefault("by_count", {})[str(len(sing))] = 1
